@@ -77,6 +77,8 @@ def h16b(c, S=2, mode="S", winners=(0, 1, 2), sel0=(1,), extra=(0, 2), rich=Fals
                                              kinds=["LIMIT", "MOC"] if rich or s == 0 else ["LIMIT"], msplits=("none", "part", "all") if rich else ("none", "part"),
                                              part_cancel=rich)
                 pos.install(fl, market, strategy, o, d, 100 + nord)
+                if nord == 0:
+                    first_order = o
                 nord += 1
                 ds.append(d)
             per_sel.append(ds)
@@ -84,10 +86,14 @@ def h16b(c, S=2, mode="S", winners=(0, 1, 2), sel0=(1,), extra=(0, 2), rich=Fals
         R = c.choose("number_of_active_runners", [S + x for x in extra])
         bk.number_of_winners = W
         bk.number_of_active_runners = R
-        variant = c.choose("variant", ["plain", "new_order_same_sel", "new_order_other_sel"])
+        variant = c.choose("variant", ["plain", "new_order_same_sel", "new_order_other_sel", "exclusion", "exclusion+new_order_other_sel"])
         c.tag("variant", variant)
         kw = {}
-        if variant != "plain":
+        if variant.startswith("exclusion"):
+            # an order named as exclusion is handled exactly as if it had been removed from the book
+            kw["exclusion"] = first_order
+            per_sel[0] = per_sel[0][1:]
+        if variant not in ("plain", "exclusion"):
             sel = 1 if variant == "new_order_same_sel" else S + 1
             no, nd = pos.mk_position_order(c, "new", strategy, mode, selection_id=sel, new=True, kinds=["LIMIT", "MOC"])
             no.update_client(client)
